@@ -61,3 +61,28 @@ Definition serve_names (t : ftree) (req : list Z) : list (list Z) :=
 (** a daemon request: module prefix stripped from every path argument *)
 Definition daemon_serve (mname : list Z) (t : ftree) (reqs : list (list Z)) : list (list Z) :=
   flat_map (fun r => serve_names t (strip_module mname r)) reqs.
+
+(** ** The client as sender (push / local copy): sender/flist.go SendFileList
+    with the implicit module "/".  An absolute source path with a trailing
+    slash becomes the directory to open, with "/" requested inside it; any
+    other path is split into filepath.Dir (opened) and filepath.Base
+    (requested). *)
+Definition last_comp (s : list Z) : list Z := last (split_slash s []) [].
+(** filepath.Base of a path that does not end in a slash: what follows the last slash *)
+Definition path_base (s : list Z) : list Z := last_comp s.
+(** filepath.Dir: everything up to and including the last slash, cleaned *)
+Definition path_dir (s : list Z) : list Z :=
+  path_clean (firstn (length s - length (last_comp s)) s).
+
+Definition client_split (req : list Z) : list Z * list Z :=
+  if has_suffix_slash req then (req, [slash]) else (path_dir req, path_base req).
+
+(** os.OpenRoot(local) needs a directory; then the same walk and naming as for a module *)
+Definition client_names (t : ftree) (req : list Z) : list (list Z) :=
+  let '(local, requested) := client_split req in
+  let root := walk_root local in
+  if negb (valid_path root) then [] else
+  match lookup t (comps_of root) with
+  | Some (TDir cs) => serve_names (TDir cs) requested
+  | _ => []
+  end.
